@@ -509,6 +509,7 @@ def run_check(prop, tier, base_seed=None, budget_s=None, workers=None, runs=None
     # ---- violations: one per clause, minimise, replay in a fresh interpreter
     known = load_known()
     reported = []
+    unreproduced = []
     seen_clauses = set()
     agg['violations'].sort(key=lambda d: (d['violation']['clause'], d['ref'] if d['ref'] >= 0 else 10 ** 9 - d['ref']))
     for d in agg['violations']:
@@ -521,8 +522,8 @@ def run_check(prop, tier, base_seed=None, budget_s=None, workers=None, runs=None
             history = [plan_by_ref(engine, base_seed, prop, tier, r) for r in d['history']]
             hist, best, r = minimise(engine, plan, prop, known, cl, history)
             if r is None:
-                harness_errors.append('violation %s of seed %s did not reproduce, neither alone nor after the %d runs that preceded it in its worker'
-                                      % (cl, plan.get('seed'), len(history)))
+                unreproduced.append('violation %s of seed %s did not reproduce, neither alone nor after the %d runs that preceded it in its worker'
+                                    % (cl, plan.get('seed'), len(history)))
                 continue
             ctx, v = r
             v = _V(v)
@@ -551,6 +552,11 @@ def run_check(prop, tier, base_seed=None, budget_s=None, workers=None, runs=None
         except Exception as e:
             harness_errors.append('minimiser failed: %s' % ''.join(traceback.format_exception_only(type(e), e)).strip())
 
+    # A violation seen once that cannot be produced again is a harness error - unless another violation of
+    # the same check did reproduce: then the verdict stands on that one and this is only noted (a library
+    # that keys behaviour on memory layout produces both kinds in one batch).
+    if unreproduced and not reported:
+        harness_errors.extend(unreproduced)
     if agg.get('nondeterministic') and not reported:
         harness_errors.append('%d re-executions in pristine children disagreed with each other (non-deterministic execution) and no violation explains it' % agg['nondeterministic'])
     wall = time.time() - t0
@@ -562,6 +568,9 @@ def run_check(prop, tier, base_seed=None, budget_s=None, workers=None, runs=None
     for cl, msg, path, nsteps, nhist in reported:
         print('violated clause %s: %s (minimised to %d steps%s)' % (cl, msg, nsteps, ', needs %d earlier run(s) in the same process: the library keeps hidden global state' % nhist if nhist else ''))
         print('VIOLATION property=%s replay=%s' % (prop, path))
+    if reported:
+        for u in unreproduced:
+            print('NOTE (not part of the verdict): %s' % u)
     rate = agg['runs'] / wall * 3600 if wall > 0 else 0
     print('%s %s: %d runs (%d with faults fired, %d fault-free), %d distinct non-trivial shapes, %.0f runs/h, %d determinism re-executions, %.1fs'
           % (prop, tier, agg['runs'], agg['faulty_runs'], agg['faultfree_runs'], len(agg['nontrivial_shapes']), rate, agg['determinism_checked'], wall))
